@@ -86,24 +86,24 @@ type DirEnt struct {
 
 // In is a request with concrete handles.
 type In struct {
-	K      string // getattr setattr lookup access readlink read write create mkdir symlink mknod remove rmdir rename link readdir readdirplus fsstat fsinfo pathconf commit
-	Obj    string // primary handle
-	Obj2   string // RENAME target directory
-	Name   string
-	Name2  string
-	Off    uint64
-	Count  uint64
-	Data   []byte
-	SetSz  bool
-	Size   uint64
-	SetTm  bool // set both times
-	SetAt  bool // set atime only
-	SetMt  bool // set mtime only
-	How    int // WRITE stable_how / CREATE mode
-	Cookie uint64
+	K         string // getattr setattr lookup access readlink read write create mkdir symlink mknod remove rmdir rename link readdir readdirplus fsstat fsinfo pathconf commit
+	Obj       string // primary handle
+	Obj2      string // RENAME target directory
+	Name      string
+	Name2     string
+	Off       uint64
+	Count     uint64
+	Data      []byte
+	SetSz     bool
+	Size      uint64
+	SetTm     bool // set both times
+	SetAt     bool // set atime only
+	SetMt     bool // set mtime only
+	How       int  // WRITE stable_how / CREATE mode
+	Cookie    uint64
 	BadCookie bool // a cookie the server never issued: any reply is acceptable
-	Dircnt uint64
-	Maxcnt uint64
+	Dircnt    uint64
+	Maxcnt    uint64
 	// crash histories (conc engine): the operation had not returned when the disk
 	// was cut off / the operation observes the recovered server
 	Pending   bool
